@@ -468,7 +468,7 @@ def callsite_part():
 
 
 def run(ctx):
-    depth = 6 if ctx.thorough else 5
+    depth = 7 if ctx.thorough else 6
     st = explore(depth)
     cdepth, cap = (4, 1500) if ctx.thorough else (3, 400)
     checked, mism = conformance(cdepth, cap)
